@@ -106,6 +106,13 @@ func VerifBitsFormat() {
 		sum := md5.Sum(view)
 		vrt.Assert(ok && s == hex.EncodeToString(sum[:]), "bits_format md5: digest of the byte view")
 	}
+	// the rendering is a function of the value: rendering it again with the same
+	// formatter (as tovalue/-V do for every raw field of a tree) gives the same text
+	got2 := b.JQValueToGoJQEx(func() (*Options, error) { return &Options{BitsFormatFn: fn}, nil })
+	if s1, ok := got.(string); ok {
+		s2, ok2 := got2.(string)
+		vrt.Assert(ok2 && s1 == s2, "bits_format: no state is carried from one rendered value to the next")
+	}
 	// raw output writes the same bytes
 	var out bytes.Buffer
 	vrt.Assert(b.Display(&out, &Options{RawOutput: true}) == nil, "raw display succeeds")
